@@ -190,7 +190,7 @@ theorem prepared_copy_has_schedule (ne np nc : Nat) (seq : List Op) (hseq : Plai
       prep (build ne np nc seq).1 = .ok c' ∧ Good c' P' ∧ L'.map (·.2) = Spec.unwrapSeq seq ∧
       (∀ r, r.idx < c'.regs r.ty → c'.regGateHistory r = .ok (P' r) ∧
         P' r = .inp r :: ((L'.filter (fun p => decide (r ∈ opRegs p.2))).map (·.1) ++ [.out r])) ∧
-      (∀ p, p ∈ L' ↔ (∃ i, p.1 = NodeId.op i) ∧ p ∈ c'.nodes) ∧ (L'.map (·.1)).Nodup := by
+      (∀ p, p ∈ L' ↔ (∃ i, p.1 = NodeId.op i) ∧ ∃ o, (p.1, o) ∈ c'.nodes ∧ p.2 = wiredOp P' p.1 o) ∧ (L'.map (·.1)).Nodup := by
   obtain ⟨c', P', L', hprep, g', hS', hL', _⟩ := prep_sched ne np nc seq hseq hok
   exact ⟨c', P', L', hprep, g', hL', fun r hl => ⟨regGateHistory_eq_wire g'.inv hl, hS'.wire r hl⟩, hS'.nodes, hS'.nodup⟩
 
@@ -209,8 +209,8 @@ theorem max_depth_on_scheduled_circuit {c : Dag} {P : Reg → List NodeId} {L : 
   constructor
   · intro pre p suf hL
     have hr : ∃ r, r ∈ opRegs p.2 := by
-      obtain ⟨i, _, hm⟩ := hS.op_node (show p ∈ L by rw [hL]; simp)
-      have := (g.inv.op_wf i p.2 hm).qregs_ne
+      obtain ⟨i, o, _, hm, hpo⟩ := hS.op_node (show p ∈ L by rw [hL]; simp)
+      have := (hpo ▸ wiredOp_wf (g.inv.op_wf i o hm) : OpWF p.2).qregs_ne
       cases hq : p.2.qregs with
       | nil => exact absurd hq this
       | cons a t => exact ⟨a, by simp [opRegs, hq]⟩
